@@ -805,6 +805,13 @@ func (c *trCtx) call(x *ast.CallExpr) string {
 			return c.builtin(b.Name(), x)
 		}
 	}
+	// explicit instantiation F[T](…) of a declared generic function: the call of F (type arguments are implicit in Lean)
+	if ix, ok := trUnparen(x.Fun).(*ast.IndexExpr); ok && c.calledFunc(x) != nil {
+		y := *x
+		y.Fun = ix.X
+		c.info().Types[&y] = c.info().Types[x]
+		return c.call(&y)
+	}
 	if fo := c.calledFunc(x); fo != nil {
 		if r, ok := c.externalCall(fo, x); ok {
 			return r
